@@ -69,10 +69,12 @@ pub fn run(rec: &mut Recorder, w: &mut World, tier: &str, seed: u64) {
         rec.exec(w, "e.auto\tsave\tfalse");
         let np = rng.below(7); let ng = rng.below(4);
         let mut descr = vec![];
+        let mut redo: Vec<String> = vec![];
         for _ in 0..np {
             let r: Vec<String> = vec![rng.pick(&SAFE).to_string(), rng.pick(&SAFE).to_string(), rng.pick(&["read", "a,b"]).to_string(), rng.pick(&["allow", "deny"]).to_string()];
             let pt = if rng.chance(1, 4) { "p2" } else { "p" };
             rec.exec(w, &MOp::Add("p".into(), pt.into(), r.clone()).line());
+            redo.push(MOp::Add("p".into(), pt.into(), r.clone()).line());
             descr.push(format!("{} {:?}", pt, r));
             if r.iter().any(|f| f.contains(',')) { rec.count("value:has-comma"); }
             if r.iter().any(|f| !f.is_ascii()) { rec.count("value:multi-byte"); }
@@ -81,6 +83,7 @@ pub fn run(rec: &mut Recorder, w: &mut World, tier: &str, seed: u64) {
             let r: Vec<String> = vec![rng.pick(&SAFE).to_string(), rng.pick(&SAFE).to_string()];
             let gt = if rng.chance(1, 4) { "g2" } else { "g" };
             rec.exec(w, &MOp::Add("g".into(), gt.into(), r.clone()).line());
+            redo.push(MOp::Add("g".into(), gt.into(), r.clone()).line());
             descr.push(format!("{} {:?}", gt, r));
         }
         let before = rec.exec(w, "e.pol");
@@ -92,6 +95,21 @@ pub fn run(rec: &mut Recorder, w: &mut World, tier: &str, seed: u64) {
         let dec_after = rec.exec(w, &format!("e.enfs\t{}", reqs_field(&reqs)));
         if s1 != "ok" || l1 != "ok" || before != after || dec_before != dec_after {
             rec.fail("save-load-not-identity", format!("[{}] save -> {}, load -> {}: {} became {} (decisions {} -> {})", kind, s1, l1, before, after, dec_before, dec_after));
+        }
+        // the same content saved a second time after the storage was emptied in between: clear_policy with auto-save on (the
+        // storage is cleared too), the very same rules added again in the same order, save, load — everything is there again
+        if kind != "string" && !redo.is_empty() && rng.chance(1, 3) {
+            rec.exec(w, "e.auto\tsave\ttrue");
+            let c = rec.exec(w, "e.clear");
+            for l in &redo { rec.exec(w, l); }
+            let before3 = rec.exec(w, "e.pol");
+            let (s3, l3) = (rec.exec(w, "e.save"), rec.exec(w, "e.load"));
+            let after3 = rec.exec(w, "e.pol");
+            if c != "ok" || s3 != "ok" || l3 != "ok" || before3 != after3 || before3 != before {
+                rec.fail("save-load-not-identity", format!("[{}] clear_policy (auto-save on) -> {}, same rules added again, save -> {}, load -> {}: {} became {} (first time: {})", kind, c, s3, l3, before3, after3, before));
+            }
+            rec.exec(w, "e.auto\tsave\tfalse");
+            rec.count("roundtrip-same-content-after-clear");
         }
         // a second save over the now non-empty storage: after emptying the policy in memory (auto-save is off, the storage
         // still holds the rules), or after taking away one policy type's rules — what is stored afterwards is what is held
